@@ -200,12 +200,13 @@ class Gen:
             for ci in range(n):
                 w["classes"].append(self.cls(w, ci, kinds, allow_untyped))
             return w
+        # union families come IN ADDITION to the n ordinary classes (the share of TypedDicts, init=False / kw_only
+        # attributes, recursive classes ... per world stays what it is without unions)
         w["families"] = []
-        while len(w["classes"]) < n:
-            if r.random() < 0.4 and ("attrs" in kinds or "dc" in kinds):
+        for _ in range(n):
+            if r.random() < 0.3 and ("attrs" in kinds or "dc" in kinds):
                 self.family(w, [k for k in kinds if k != "td"], allow_untyped)
-            else:
-                w["classes"].append(self.cls(w, len(w["classes"]), kinds, allow_untyped))
+            w["classes"].append(self.cls(w, len(w["classes"]), kinds, allow_untyped))
         return w
 
     TAG_POOL = [("s", "k0"), ("s", "k1"), ("s", "k2"), ("i", 1), ("i", 2), ("i", 3), ("s", "b"), ("i", 0)]
@@ -250,9 +251,20 @@ class Gen:
                 if dfl:
                     v = self.value(w, ty, 1, any_stable=True)
                     d = ("c", v) if v[0] in ("N", "b", "i", "f", "s", "y", "e") else ("fac", v)
-                fields.append(mk(nm, ty, d))
+                f = mk(nm, ty, d)
+                if d is not None and r.random() < 0.15:
+                    f["init"] = False  # (never the tag / the unique attributes: they must reach the payload)
+                elif r.random() < 0.15:
+                    f["kw_only"] = True
+                fields.append(f)
             r.shuffle(fields)
-            fields.sort(key=lambda f: f["dflt"] is not None)
+            fields.sort(key=lambda f: (f["dflt"] is not None) if (f["init"] and not f["kw_only"]) else False)
+            pos = [f for f in fields if f["init"] and not f["kw_only"]]
+            pos.sort(key=lambda f: f["dflt"] is not None)
+            others = [f for f in fields if not (f["init"] and not f["kw_only"])]
+            fields = list(pos)
+            for f in others:
+                fields.insert(r.randint(0, len(fields)), f)
             w["classes"].append({"kind": kind, "frozen": r.random() < 0.35, "fields": fields, "slots": r.random() < 0.5,
                                  "recursive": None})
         w["families"].append({"members": list(range(base, base + n)), "mode": mode,
@@ -356,7 +368,7 @@ class Gen:
     def type(self, w, depth, max_cls=None, field=False, hashable=False, allow_any=True):
         r = self.rng
         n_cls = len(w["classes"]) if max_cls is None else max_cls
-        if self.unions and not hashable and n_cls >= 2 and r.random() < (0.2 if depth <= 0 else 0.07):
+        if self.unions and not hashable and n_cls >= 2 and r.random() < (0.14 if depth <= 0 else 0.05):
             u = self.union_type(w, n_cls)
             if u is not None:
                 return u
